@@ -180,6 +180,10 @@ def _scenarios(tier):
     sc.append(("roundtrip:full-eps", dict(eps_comps=9, mu_comps=3), {}))
     sc.append(("roundtrip:full-mu", dict(eps_comps=3, mu_comps=9), {}))
     sc.append(("roundtrip:full-both", dict(eps_comps=9, mu_comps=9), dict(with_sources=False)))
+    # full tensors next to a Bloch face: the off-diagonal averages read the ghost layer, which must carry the phase in
+    # the forward and in the reverse update alike
+    sc.append(("roundtrip:full-mu:bloch:axis0", dict(eps_comps=3, mu_comps=9), dict(with_sources=False, boundaries=[(BLO, 0, d) for d in "-+"], bloch=True)))
+    sc.append(("roundtrip:full-eps:bloch:axis2", dict(eps_comps=9, mu_comps=3), dict(with_sources=False, boundaries=[(BLO, 2, d) for d in "-+"], bloch=True)))
     # full tensors on a non-uniform grid: the off-diagonal averages are weighted by the cell widths
     sc.append(("roundtrip:nonuniform:full-eps", dict(eps_comps=9, mu_comps=3), dict(nonuniform=True, with_sources=False)))
     sc.append(("roundtrip:nonuniform:full-mu", dict(eps_comps=3, mu_comps=9), dict(nonuniform=True, with_sources=False)))
